@@ -172,6 +172,9 @@ def build_alphabet(lab, ents, root_of):
                 g = "unfold:%s:%s:%s" % (s, du, de)
                 add("unfold_pos:%d:%d%d" % (i, du, de), {"f": "unfold", "search": s, "args": [du, de]}, group=g)
                 add("unfold_kw:%d:%d%d" % (i, du, de), {"f": "unfold", "search": s, "kw": {"do_uniquify": du, "do_extrapolate": de}}, group=g)
+                if i in (0, 2):
+                    # the first flag by position, the second by keyword: the same call
+                    add("unfold_mixed:%d:%d%d" % (i, du, de), {"f": "unfold", "search": s, "args": [du], "kw": {"do_extrapolate": de}}, group=g)
                 if not du and not de:
                     add("unfold_plain:%d" % i, {"f": "unfold", "search": s}, group=g)
                     add("unfold_sid:%d" % i, {"f": "unfold", "search": s, "as_sid": True}, group=g)
